@@ -260,7 +260,12 @@ def run_stream(ts, op):
                 if budget is not None and taken >= budget:
                     s["status"] = "abandoned"
                     stop = True
-                    if cons.get("close") and hasattr(g, "close"):
+                    if cons.get("throw") and hasattr(g, "throw"):
+                        try:  # the consumer fails while holding the generator: its exception is raised at the yield
+                            g.throw(RuntimeError("consumer failed"))
+                        except (RuntimeError, StopIteration):
+                            pass
+                    elif cons.get("close") and hasattr(g, "close"):
                         g.close()
                     break
                 try:
